@@ -1,8 +1,520 @@
-//! C07 — not built yet.
+//! C07 — all dispatch paths and route shapes give the same answer for the same request.
+//! In-process via Router::get: (A) differential equality of handle / handle_with_ctx / handle_view and
+//! of the same route behind 1..2 forwarding middlewares, per handler kind x body-format code x body bytes,
+//! after applying the documented query-echo rule; handler argument logs compared too. (B) all
+//! registration orders of {exact route, registry mount, struct mount, middleware x2}: middleware runs
+//! exactly once per request for every route, exact route beats mounted prefix. (C) prefix/path boundary
+//! pairs. (D) a recording RepeStruct: segments == RFC 6901 tokens (independent tokenizer), depth 0..40.
+
 use crate::common::*;
+use repe::server::HandlerErased;
+use repe::{BodyFormat, CallContext, ErrorCode, JsonTypedHandler, Message, MessageView, Next, QueryFormat, Registry, RepeError, RepeStruct, Router, StructError};
+use serde::{Deserialize, Serialize};
+use serde_json::{Value, json};
+use std::sync::atomic::{AtomicU64, Ordering};
+use std::sync::{Arc, Mutex};
+
+type Log = Arc<Mutex<Vec<String>>>;
+
+#[derive(Deserialize, Serialize, Debug, Clone)]
+struct In {
+    a: i64,
+    b: String,
+}
+#[derive(Deserialize, Serialize, Debug, Clone, PartialEq)]
+struct OutT {
+    sum: i64,
+    echo: String,
+}
+
+struct Adder(Log);
+impl JsonTypedHandler for Adder {
+    type In = In;
+    type Out = OutT;
+    fn call(&self, input: In) -> Result<OutT, (ErrorCode, String)> {
+        self.0.lock().unwrap().push(format!("adder:{input:?}"));
+        Ok(OutT { sum: input.a + 1, echo: input.b })
+    }
+}
+
+/// custom erased handler: sets its own response query for one flag value
+struct Custom(Log);
+impl HandlerErased for Custom {
+    fn handle(&self, req: &Message) -> Result<Message, RepeError> {
+        self.0.lock().unwrap().push(format!("custom:{}", hex_trunc(&req.body, 24)));
+        if req.body.first() == Some(&0xEE) {
+            return Err(RepeError::Io(std::io::Error::other("custom handler failure")));
+        }
+        let own_query = req.body.first() == Some(&0x01);
+        let mut b = Message::builder().id(req.header.id).body_bytes(req.body.iter().rev().cloned().collect::<Vec<u8>>()).body_format_code(req.header.body_format);
+        if own_query {
+            b = b.query_bytes(vec![1u8]).query_format_code(7);
+        }
+        Ok(b.build())
+    }
+}
+
+struct Recorder {
+    seen: Arc<Mutex<Vec<(Vec<String>, bool)>>>,
+}
+impl RepeStruct for Recorder {
+    fn repe_handle(&mut self, segments: &[&str], body: Option<Value>) -> Result<Option<Value>, StructError> {
+        self.seen.lock().unwrap().push((segments.iter().map(|s| s.to_string()).collect(), body.is_some()));
+        Ok(Some(json!({"n": segments.len()})))
+    }
+}
+
+const KINDS: [&str; 12] = ["/json", "/json_ctx", "/typed", "/typed_ctx", "/slice", "/slice_ref", "/adder", "/custom", "/reg/x", "/st/field", "/json_blocking", "/typed_blocking"];
+
+fn build_router(log: &Log, n_mw: usize, mw_hits: &Arc<AtomicU64>, rec: &Arc<Mutex<Vec<(Vec<String>, bool)>>>, reg: &Arc<Registry>) -> Router {
+    let l = |tag: &'static str| {
+        let log = log.clone();
+        move |s: String| log.lock().unwrap().push(format!("{tag}:{s}"))
+    };
+    let (j, jc, t, tc, sl, sr, jb, tb) = (l("json"), l("json_ctx"), l("typed"), l("typed_ctx"), l("slice"), l("slice_ref"), l("json_blocking"), l("typed_blocking"));
+    let jfun = |v: Value| -> Result<Value, (ErrorCode, String)> {
+        if v == json!("fail") {
+            Err((ErrorCode::ApplicationErrorBase, "scripted".into()))
+        } else {
+            Ok(json!({"got": v}))
+        }
+    };
+    let mut r = Router::new()
+        .with_json("/json", move |v| {
+            j(v.to_string());
+            jfun(v)
+        })
+        .with_json_ctx("/json_ctx", move |ctx: &CallContext, v| {
+            jc(format!("{}|{}", ctx.method(), v));
+            jfun(v)
+        })
+        .with_typed("/typed", move |i: In| -> Result<OutT, (ErrorCode, String)> {
+            t(format!("{i:?}"));
+            Ok(OutT { sum: i.a * 2, echo: i.b })
+        })
+        .with_typed_ctx("/typed_ctx", move |_ctx: &CallContext, i: In| -> Result<OutT, (ErrorCode, String)> {
+            tc(format!("{i:?}"));
+            Ok(OutT { sum: i.a * 3, echo: i.b })
+        })
+        .with_typed_slice("/slice", move |xs: Vec<f64>| -> Result<Vec<f64>, (ErrorCode, String)> {
+            sl(format!("{:?}", xs.iter().map(|x| x.to_bits()).collect::<Vec<_>>()));
+            Ok(xs.iter().rev().cloned().collect())
+        })
+        .with_typed_slice_ref("/slice_ref", move |xs: &[f64]| -> Result<Vec<f64>, (ErrorCode, String)> {
+            sr(format!("{:?}", xs.iter().map(|x| x.to_bits()).collect::<Vec<_>>()));
+            Ok(xs.iter().rev().cloned().collect())
+        })
+        .with_handler("/adder", Adder(log.clone()))
+        .with_erased_handler("/custom", Arc::new(Custom(log.clone())))
+        .with_json_blocking("/json_blocking", move |v| {
+            jb(v.to_string());
+            jfun(v)
+        })
+        .with_typed_blocking("/typed_blocking", move |i: In| -> Result<OutT, (ErrorCode, String)> {
+            tb(format!("{i:?}"));
+            Ok(OutT { sum: i.a * 5, echo: i.b })
+        })
+        .with_registry("/reg", reg.clone());
+    let (rr, _) = r.with_struct("/st", Recorder { seen: rec.clone() });
+    r = rr;
+    for _ in 0..n_mw {
+        let hits = mw_hits.clone();
+        r = r.with_middleware(move |req: &Message, next: Next<'_>| {
+            hits.fetch_add(1, Ordering::SeqCst);
+            next.run(req)
+        });
+    }
+    r
+}
+
+#[derive(Debug, Clone, PartialEq)]
+struct Norm {
+    id: u64,
+    ec: u32,
+    query_format: u16,
+    body_format: u16,
+    query: Vec<u8>,
+    body: Vec<u8>,
+}
+
+/// Normalise a handler result the way the dispatch layer does: Err(e) -> error response with the
+/// error's code and text; an empty response query means "echo the request query".
+fn norm(r: Result<Message, RepeError>, req: &Message) -> Norm {
+    match r {
+        Ok(m) => Norm { id: m.header.id, ec: m.header.ec, query_format: m.header.query_format, body_format: m.header.body_format, query: if m.query.is_empty() { req.query.clone() } else { m.query }, body: m.body },
+        Err(e) => Norm { id: req.header.id, ec: e.to_error_code() as u32, query_format: 0, body_format: BodyFormat::Utf8 as u16, query: req.query.clone(), body: e.to_string().into_bytes() },
+    }
+}
+
+fn gen_body(r: &mut Rng, kind: &str) -> (u16, Vec<u8>) {
+    let fmt = *r.pick(&[0u16, 1, 2, 3, 4, 0xffff, 1, 2]);
+    let good_in = json!({"a": r.below(1000) as i64 - 500, "b": format!("s{}", r.below(100))});
+    let body = match r.below(9) {
+        0 => vec![],
+        1 => {
+            let k = r.usize_below(40);
+            r.bytes(k)
+        }
+        2 => serde_json::to_vec(&good_in).unwrap(),
+        3 => beve::to_vec(&In { a: r.below(100) as i64, b: "z".into() }).unwrap(),
+        4 => {
+            let mut v = serde_json::to_vec(&good_in).unwrap();
+            v.truncate(r.usize_below(v.len().max(1)));
+            v
+        }
+        5 => {
+            let xs: Vec<f64> = (0..r.below(9)).map(|_| f64::from_bits(r.next_u64())).collect();
+            if kind == "/slice_ref" && r.coin() {
+                Message::builder().query_str(kind).body_aligned_typed_slice(&xs).build().body
+            } else {
+                Message::builder().body_typed_slice(&xs).build().body
+            }
+        }
+        6 => b"\"fail\"".to_vec(),
+        7 => {
+            let mut v = Message::builder().body_typed_slice(&[1.5f64, -2.0, f64::NAN]).build().body;
+            v.truncate(r.usize_below(v.len()));
+            v
+        }
+        _ => {
+            let mut v = vec![*r.pick(&[0x01u8, 0xEE, 0x00, 0x5C])];
+            let k = r.usize_below(12);
+            v.extend(r.bytes(k));
+            v
+        }
+    };
+    (fmt, body)
+}
+
+pub fn tokenize(p: &str) -> Vec<String> {
+    // RFC 6901: "" -> no tokens; otherwise split after the leading '/', unescape ~1 -> '/', ~0 -> '~'
+    if p.is_empty() {
+        return vec![];
+    }
+    let chars: Vec<char> = p.chars().collect();
+    let mut toks = vec![];
+    let mut cur = String::new();
+    let mut i = 1;
+    while i < chars.len() {
+        match chars[i] {
+            '/' => toks.push(std::mem::take(&mut cur)),
+            '~' if chars.get(i + 1) == Some(&'0') => {
+                cur.push('~');
+                i += 1;
+            }
+            '~' if chars.get(i + 1) == Some(&'1') => {
+                cur.push('/');
+                i += 1;
+            }
+            c => cur.push(c),
+        }
+        i += 1;
+    }
+    toks.push(cur);
+    toks
+}
+
+fn esc(t: &str) -> String {
+    t.replace('~', "~0").replace('/', "~1")
+}
+
+fn permutations(n: usize) -> Vec<Vec<usize>> {
+    fn rec(cur: &mut Vec<usize>, used: &mut Vec<bool>, out: &mut Vec<Vec<usize>>) {
+        if cur.len() == used.len() {
+            out.push(cur.clone());
+            return;
+        }
+        for i in 0..used.len() {
+            if !used[i] {
+                used[i] = true;
+                cur.push(i);
+                rec(cur, used, out);
+                cur.pop();
+                used[i] = false;
+            }
+        }
+    }
+    let mut out = vec![];
+    rec(&mut vec![], &mut vec![false; n], &mut out);
+    out
+}
 
 pub fn run(args: &Args) -> Report {
-    let mut rep = Report::new(args, "c07-stub", "stub");
-    rep.inconclusive("check not implemented");
+    let mut rep = Report::new(
+        args,
+        "c07-dispatch",
+        "(A) 12 handler kinds x body-format codes {0,1,2,3,4,0xffff} x body shapes (empty, random, valid JSON, valid BEVE, \
+         truncated, typed arrays, aligned typed arrays, error triggers): handle vs handle_with_ctx vs handle_view vs the same \
+         behind 1 and 2 forwarding middlewares; (B) all 120 registration orders of {route, registry mount, struct mount, mw, mw}; \
+         (C) prefix/path boundary pairs; (D) struct segments vs independent RFC 6901 tokenizer for depth 0..40 incl. the 16/17 \
+         boundary; distinct = (kind, format, body shape, outcome class) / permutation / path shape",
+    );
+    let miri = args.stage.starts_with("miri");
+    quiet_panics(true);
+    let mut rng = Rng::new(args.seed ^ 0xC07);
+
+    // ---------------- (A) differential
+    let mk = |n_mw: usize| {
+        let log: Log = Arc::new(Mutex::new(vec![]));
+        let hits = Arc::new(AtomicU64::new(0));
+        let rec = Arc::new(Mutex::new(vec![]));
+        let reg = Arc::new(Registry::new());
+        reg.register_value("/x", json!({"v": 1})).unwrap();
+        let router = build_router(&log, n_mw, &hits, &rec, &reg);
+        (router, log, hits, rec, reg)
+    };
+    let n = args.budget(150_000, 3_000_000);
+    let r0 = mk(0);
+    let r1 = mk(1);
+    let r2 = mk(2);
+    for case in 0..n {
+        let mut r = rng.fork(case);
+        let kind = *r.pick(&KINDS);
+        let (fmt, body) = gen_body(&mut r, kind);
+        let req = Message::builder().id(case + 1).query_str(kind).query_format(QueryFormat::JsonPointer).body_bytes(body.clone()).body_format_code(fmt).build();
+        // the view path reads from a wire buffer; place the frame at a seeded misalignment
+        let wire = req.to_vec();
+        let mis = r.usize_below(8);
+        let mut arena = vec![0u8; wire.len() + 16];
+        let base = (8 - (arena.as_ptr() as usize % 8)) % 8 + mis;
+        arena[base..base + wire.len()].copy_from_slice(&wire);
+        let view = match MessageView::from_slice(&arena[base..base + wire.len()]) {
+            Ok(v) => v,
+            Err(e) => {
+                rep.inconclusive(format!("harness built an unparsable frame: {e}"));
+                break;
+            }
+        };
+        rep.eval();
+        let mut results: Vec<(&'static str, Result<Norm, String>, Vec<String>)> = vec![];
+        for (label, sys) in [("plain", &r0), ("mw1", &r1), ("mw2", &r2)] {
+            let Some(h) = sys.0.get(kind) else {
+                rep.violation("C07:route-missing", format!("Router::get({kind}) returned None"), json!({"kind": kind}));
+                continue;
+            };
+            let ctx = CallContext::detached(kind);
+            let hits_before = sys.2.load(Ordering::SeqCst);
+            let run_one = |name: &'static str, f: &dyn Fn() -> Result<Message, RepeError>| {
+                sys.1.lock().unwrap().clear();
+                sys.3.lock().unwrap().clear();
+                // registry writes mutate: reset the value the request may have overwritten
+                let _ = sys.4.register_value("/x", json!({"v": 1}));
+                let out = catching(f).map(|x| norm(x, &req));
+                let mut args_seen = sys.1.lock().unwrap().clone();
+                args_seen.extend(sys.3.lock().unwrap().iter().map(|(s, b)| format!("struct:{s:?}:{b}")));
+                (name, out, args_seen)
+            };
+            let a = run_one("handle", &|| h.handle(&req));
+            let b = run_one("handle_with_ctx", &|| h.handle_with_ctx(&req, &ctx));
+            let c = run_one("handle_view", &|| h.handle_view(&view, &ctx));
+            let expect_hits = match label {
+                "plain" => 0,
+                "mw1" => 3,
+                _ => 6,
+            };
+            let got_hits = sys.2.load(Ordering::SeqCst) - hits_before;
+            if got_hits != expect_hits {
+                rep.violation(format!("C07:middleware-count:{kind}"), format!("{label}: middleware ran {got_hits} times for 3 dispatches of {kind}, expected {expect_hits}"), json!({"kind": kind, "case": case}));
+            }
+            for (name, out, seen) in [a, b, c] {
+                let tag: &'static str = match (label, name) {
+                    ("plain", "handle") => "plain.handle",
+                    ("plain", "handle_with_ctx") => "plain.handle_with_ctx",
+                    ("plain", "handle_view") => "plain.handle_view",
+                    ("mw1", "handle") => "mw1.handle",
+                    ("mw1", "handle_with_ctx") => "mw1.handle_with_ctx",
+                    ("mw1", "handle_view") => "mw1.handle_view",
+                    ("mw2", "handle") => "mw2.handle",
+                    ("mw2", "handle_with_ctx") => "mw2.handle_with_ctx",
+                    _ => "mw2.handle_view",
+                };
+                results.push((tag, out, seen));
+            }
+        }
+        if results.is_empty() {
+            continue;
+        }
+        let (t0, o0, s0) = results[0].clone();
+        let class = match &o0 {
+            Ok(nm) => format!("ec{}", nm.ec),
+            Err(_) => "panic".into(),
+        };
+        rep.distinct(&(kind, fmt, body.len().min(3), body.first().copied(), class.clone()));
+        if case < 4 {
+            rep.sample(json!({"kind": kind, "body_format": fmt, "body_hex": hex_trunc(&body, 32), "outcome": class}));
+        }
+        if let Err(p) = &o0 {
+            rep.violation(format!("C07:panic:{kind}:{}", panic_site(p)), format!("{t0} panicked: {p}"), json!({"kind": kind, "fmt": fmt, "body_hex": hex(&body)}));
+        }
+        for (t, o, s) in &results[1..] {
+            if *o != o0 {
+                rep.violation(
+                    format!("C07:paths-differ:{kind}:{t}"),
+                    format!("{kind} fmt {fmt} body {}: {t0} -> {o0:?} but {t} -> {o:?}", hex_trunc(&body, 40)),
+                    json!({"kind": kind, "fmt": fmt, "body_hex": hex(&body), "misalign": mis}),
+                );
+            }
+            if *s != s0 {
+                rep.violation(
+                    format!("C07:handler-args-differ:{kind}:{t}"),
+                    format!("{kind} fmt {fmt} body {}: handler invocations under {t0}: {s0:?}; under {t}: {s:?}", hex_trunc(&body, 40)),
+                    json!({"kind": kind, "fmt": fmt, "body_hex": hex(&body)}),
+                );
+            }
+        }
+    }
+
+    // ---------------- (B) registration orders
+    let perms = permutations(5);
+    let mut perm_checked = 0u64;
+    for (pi, perm) in perms.iter().enumerate() {
+        if miri && pi % 30 != 0 {
+            continue;
+        }
+        let hits = [Arc::new(AtomicU64::new(0)), Arc::new(AtomicU64::new(0))];
+        let rec = Arc::new(Mutex::new(vec![]));
+        let reg = Arc::new(Registry::new());
+        reg.register_value("/y", json!("from-registry")).unwrap();
+        reg.register_value("/z", json!("z")).unwrap();
+        let mut router = Router::new();
+        for item in perm {
+            router = match item {
+                0 => router.with_json("/x/y", |_v| Ok(json!("exact-route"))),
+                1 => router.with_registry("/x", reg.clone()),
+                2 => router.with_struct("/s", Recorder { seen: rec.clone() }).0,
+                k => {
+                    let h = hits[k - 3].clone();
+                    router.with_middleware(move |req: &Message, next: Next<'_>| {
+                        h.fetch_add(1, Ordering::SeqCst);
+                        next.run(req)
+                    })
+                }
+            };
+        }
+        rep.eval();
+        rep.distinct(&("perm", perm));
+        perm_checked += 1;
+        for (path, want) in [("/x/y", "\"exact-route\""), ("/x/z", "\"z\""), ("/s/a/b", "{\"n\":2}")] {
+            let before: Vec<u64> = hits.iter().map(|h| h.load(Ordering::SeqCst)).collect();
+            let req = Message::builder().id(9).query_str(path).query_format(QueryFormat::JsonPointer).body_json(&json!(1)).unwrap().build();
+            let req = if path == "/x/z" { Message::builder().id(9).query_str(path).query_format(QueryFormat::JsonPointer).build() } else { req };
+            let Some(h) = router.get(path) else {
+                rep.violation("C07:route-missing:order", format!("order {perm:?}: get({path}) is None"), json!({"order": perm}));
+                continue;
+            };
+            for which in ["handle", "handle_view"] {
+                let out = if which == "handle" {
+                    catching(|| h.handle(&req))
+                } else {
+                    let w = req.to_vec();
+                    catching(|| h.handle_view(&MessageView::from_slice(&w).unwrap(), &CallContext::detached(path)))
+                };
+                match out {
+                    Ok(Ok(m)) if m.header.ec == 0 && String::from_utf8_lossy(&m.body) == want => {}
+                    other => {
+                        let class = if path == "/x/y" { "exact-route-not-preferred" } else { "mount-response" };
+                        rep.violation(format!("C07:{class}"), format!("registration order {perm:?} (0=route /x/y,1=registry /x,2=struct /s,3/4=middleware): {which} of {path} gave {:?}, expected body {want}", other.map(|r| r.map(|m| (m.header.ec, String::from_utf8_lossy(&m.body).to_string())))), json!({"order": perm, "path": path}));
+                    }
+                }
+            }
+            let after: Vec<u64> = hits.iter().map(|h| h.load(Ordering::SeqCst)).collect();
+            if after[0] - before[0] != 2 || after[1] - before[1] != 2 {
+                rep.violation(
+                    "C07:middleware-skipped-by-order",
+                    format!("registration order {perm:?} (0=route,1=registry mount,2=struct mount,3/4=middleware): two dispatches of {path} ran the middlewares {} and {} times (expected 2 and 2)", after[0] - before[0], after[1] - before[1]),
+                    json!({"order": perm, "path": path}),
+                );
+            }
+        }
+    }
+    rep.set("registration_orders_checked", json!(perm_checked));
+    rep.set("registration_orders_exhaustive", json!(perm_checked == 120));
+
+    // ---------------- (C) prefix boundaries
+    let mut boundary = 0u64;
+    for prefix in ["/ab", "/a/b", "/a~1b", "/é", "/ab/"] {
+        for mount in ["registry", "struct"] {
+            let rec = Arc::new(Mutex::new(vec![]));
+            let reg = Arc::new(Registry::new());
+            let router = if mount == "registry" { Router::new().with_registry(prefix, reg.clone()) } else { Router::new().with_struct(prefix, Recorder { seen: rec.clone() }).0 };
+            let norm_prefix = if mount == "registry" { prefix.trim_end_matches('/') } else { prefix };
+            if prefix.ends_with('/') && mount == "struct" {
+                continue; // trailing-slash struct roots: unspecified
+            }
+            let cands = [
+                norm_prefix.to_string(),
+                format!("{norm_prefix}/c"),
+                format!("{norm_prefix}/"),
+                format!("{norm_prefix}c"),
+                format!("{norm_prefix}~"),
+                format!("{norm_prefix}x/y"),
+                { let mut c: Vec<char> = norm_prefix.chars().collect(); c.pop(); c.into_iter().collect::<String>() },
+                format!("/zz{norm_prefix}"),
+                "/".to_string(),
+                String::new(),
+            ];
+            for p in cands {
+                rep.eval();
+                boundary += 1;
+                rep.distinct(&("boundary", prefix, mount, &p));
+                let want = p == norm_prefix || p.strip_prefix(norm_prefix).is_some_and(|rest| rest.starts_with('/'));
+                let got = router.get(&p).is_some();
+                if got != want {
+                    rep.violation(format!("C07:prefix-boundary:{mount}"), format!("{mount} mounted at {prefix:?}: get({p:?}) matched={got}, expected {want}"), json!({"prefix": prefix, "path": p}));
+                }
+            }
+        }
+    }
+    rep.set("prefix_boundary_pairs", json!(boundary));
+
+    // ---------------- (D) struct segments
+    const TOK: [&str; 12] = ["a", "b", "", "0", "a/b", "m~n", "~", "/", "~1", "~0", "é", "x y"];
+    let nd = args.budget(40_000, 800_000);
+    let mut depth_seen = std::collections::BTreeSet::new();
+    for case in 0..nd {
+        let mut r = rng.fork(0x40_0000 + case);
+        let depth = if case < 41 { case as usize } else { r.usize_below(41) };
+        let escape_free = r.coin();
+        let toks: Vec<String> = (0..depth).map(|_| if escape_free { r.pick(&["a", "b", "", "0", "é", "x y"]).to_string() } else { r.pick(&TOK).to_string() }).collect();
+        let root = *r.pick(&["/st", "", "/deep/root"]);
+        let rel: String = toks.iter().map(|t| format!("/{}", esc(t))).collect();
+        let path = format!("{root}{rel}");
+        let rec = Arc::new(Mutex::new(vec![]));
+        let router = Router::new().with_struct(root, Recorder { seen: rec.clone() }).0;
+        let with_body = r.coin();
+        let mut b = Message::builder().id(1).query_str(&path).query_format(QueryFormat::JsonPointer);
+        if with_body {
+            b = b.body_json(&json!({"k": case})).unwrap();
+        }
+        let req = b.build();
+        rep.eval();
+        depth_seen.insert(depth);
+        rep.distinct(&("segments", depth, escape_free, root, with_body, &toks));
+        let Some(h) = router.get(&path) else {
+            rep.violation("C07:struct-mount-not-matched", format!("struct at {root:?}: get({path:?}) is None"), json!({"root": root, "path": path}));
+            continue;
+        };
+        let expect = tokenize(&rel);
+        for which in ["handle", "handle_view"] {
+            rec.lock().unwrap().clear();
+            let out = if which == "handle" {
+                catching(|| h.handle(&req).map(|_| ()))
+            } else {
+                let w = req.to_vec();
+                catching(|| h.handle_view(&MessageView::from_slice(&w).unwrap(), &CallContext::detached(&path)).map(|_| ()))
+            };
+            if let Err(p) = out {
+                rep.violation(format!("C07:panic:struct:{}", panic_site(&p)), p, json!({"path": path}));
+                continue;
+            }
+            let seen = rec.lock().unwrap().clone();
+            if seen.len() != 1 || seen[0].0 != expect || seen[0].1 != with_body {
+                let class = if depth > 16 { "deep" } else if escape_free { "plain" } else { "escaped" };
+                rep.violation(format!("C07:struct-segments:{class}"), format!("struct at {root:?}, path {path:?} ({which}): handler saw {seen:?}, RFC 6901 tokens are {expect:?} (body={with_body})"), json!({"root": root, "path": path}));
+            }
+        }
+    }
+    rep.set("struct_depths_covered", json!(depth_seen.len()));
+    quiet_panics(false);
     rep
 }
